@@ -230,7 +230,7 @@ func runC13(p *core.Prog, r *core.Report, tier string) {
 							if c2.Op == "==" || c2.Op == "!=" {
 								for _, pair := range [][2]*core.VD{{c2.X, c2.Y}, {c2.Y, c2.X}} {
 									if pair[0].IsCall("regexp.Regexp.String") && pair[1].IsCall("fmt.Sprintf") {
-										if fs, ok := constString(pair[1].Args[0].Val); ok && fs == "^%s/.*$" {
+										if fs, ok := sprintfExpanded(pair[1].Val); ok && fs == "^%s/.*$" {
 											for s := 0; s < 2; s++ {
 												if c2.RelOnEdge(s) == "==" {
 													return s
